@@ -5,7 +5,9 @@ import (
 	"flag"
 	"fmt"
 	"os"
+	"runtime"
 	"strconv"
+	"time"
 
 	"verif/harness/props"
 	"verif/harness/rig"
@@ -57,6 +59,19 @@ func main() {
 	_ = os.MkdirAll(*work, 0o755)
 	cfg := props.Cfg{Tier: *tier, Seed: *seed, Work: *work, Args: fs.Args()}
 	if f, ok := table[name]; ok {
+		// Overall watchdog: a check that hangs (for instance because a change to Dirk leaks a lock on a path the
+		// check drives sequentially) ends as inconclusive with a goroutine dump instead of hanging for ever.
+		limit := 25 * time.Minute
+		if *tier == "thorough" {
+			limit = 8 * time.Hour
+		}
+		time.AfterFunc(limit, func() {
+			buf := make([]byte, 1<<20)
+			n := runtime.Stack(buf, true)
+			fmt.Fprintf(os.Stderr, "%s\n", buf[:n])
+			fmt.Printf("INCONCLUSIVE property=%s reason=the check did not finish within %s (goroutine dump on stderr)\n", name, limit)
+			os.Exit(2)
+		})
 		os.Exit(f(cfg))
 	}
 	if f, ok := props.Children[name]; ok {
